@@ -7,6 +7,7 @@ package main
 import (
 	"encoding/base64"
 	"fmt"
+	"github.com/oauth2-proxy/oauth2-proxy/v7/pkg/apis/options"
 	"net/http"
 	"net/url"
 	"sort"
@@ -273,6 +274,7 @@ func init() {
 			}
 			e.close()
 		}
+		cfgBoolSpellings(c, "C16", map[string]func(*options.Options) bool{"reverse-proxy": func(o *options.Options) bool { return o.ReverseProxy }})
 		c.close([]string{"c16:off-pair", "c16:off-same", "c16:on-pair", "c16:on-differs", "kind:upstream", "kind:idpRedirect", "kind:redirect"})
 	})
 
@@ -846,6 +848,8 @@ func init() {
 			c.casen("c18|samesite-spelling|"+ss, ss)
 			e.close()
 		}
+		cfgBoolSpellings(c, "C18", map[string]func(*options.Options) bool{"cookie-secure": func(o *options.Options) bool { return o.Cookie.Secure },
+			"cookie-httponly": func(o *options.Options) bool { return o.Cookie.HTTPOnly }, "cookie-csrf-per-request": func(o *options.Options) bool { return o.Cookie.CSRFPerRequest }})
 		c.close([]string{"c18:flow", "c18:set-cookie", "c18:refresh-reissue"})
 	})
 }
